@@ -46,6 +46,13 @@ func (els *EncryptedLeaseSet) DecryptInnerData(authCookie []byte, privateKey int
 		return nil, err
 	}
 
+	// X25519 ignores the top bit of the last key byte, so an ephemeral key with
+	// that bit set is a second encoding of the same key. Honest senders never
+	// produce it; rejecting it keeps every ciphertext byte authenticated.
+	if els.encryptedInnerData[x25519.PublicKeySize-1]&0x80 != 0 {
+		return nil, oops.Errorf("non-canonical ephemeral public key in encrypted data")
+	}
+
 	derivedKey, err := deriveDecryptionKey(privKey, els.encryptedInnerData[:x25519.PublicKeySize])
 	if err != nil {
 		return nil, err
